@@ -14,6 +14,32 @@ package fstxn
 //@ specfunc opOpen(op *FsTxn) = opInv(op) && lastst == 0 && curop == base(op) && listsValid(op.Atxn)
 
 // C01-R6 / C03: one open transaction per goroutine, begun with no lock held.
+// C01-R5, C15-G4, C10: the in-memory allocators are rebuilt from the bitmap
+// blocks of the logical disk (read through the recovered log, block start+i
+// for the i-th block), bit for bit.
+//@ specfunc lbit(b uint64, k uint64) = lview[b][k/8] & (uint8(1) << (k%8)) != 0
+//@ spec readBitmap
+//@   props C01 C10 C15 C11 C05
+//@   requires log != nil && len <= 32768 && start < 1048576 && start + len <= dsksize
+//@   requires [R4-recovered] recovered @C01
+//@   allocates buf.Buf, []uint8
+//@   ensures [R5-len] len(result) == 4096 * len @C15 @C11
+//@   ensures [R5-bytes] forall k uint64 :: k < 4096 * len ==> result[k] == lview[start + k/4096][k%4096] @C01 @C10 @C15
+//@   loop 0 invariant i <= len && len(bitmap) == 4096 * i && (i == 0 ==> cap(bitmap) == 0) && (i > 0 ==> fresh(bitmap))
+//@   loop 0 invariant [bytes] forall k uint64 :: k < 4096 * i ==> bitmap[k] == lview[start + k/4096][k%4096]
+//@   loop 0 decreases len - i
+
+//@ spec MkFsState
+//@   props C01 C10 C15 C05
+//@   requires superInv(super) && acceptedSize(dsksize) && log != nil
+//@   requires [R4-recovered] recovered @C01
+//@   allocates buf.Buf, []uint8, fstxn.FsState, alloc.Alloc, cache.Cache, lockmap.LockMap
+//@   modifies abits, asize
+//@   ensures result != nil && fresh(result) && result.Super == super && result.Txn == log && result.Balloc != nil && result.Ialloc != nil && result.Balloc != result.Ialloc
+//@   ensures [G4-balloc] forall n uint64 :: n < super.NBlockBitmap * 32768 ==> (abits[base(result.Balloc)][n] <==> lbit(super.BitmapBlockStart() + n/32768, n%32768)) @C15 @C10 @C01 @C05
+//@   ensures [G4-ialloc] forall n uint64 :: n < 32768 ==> (abits[base(result.Ialloc)][n] <==> lbit(super.BitmapInodeStart(), n)) @C15 @C10 @C01 @C05
+//@   ensures [G4-sizes] asize[base(result.Balloc)] == super.NBlockBitmap * 32768 && asize[base(result.Ialloc)] == 32768 @C15
+
 //@ spec Begin
 //@   props C01 C03 C06 C09 C11
 //@   requires fsInv(fsstate)
